@@ -733,6 +733,61 @@ func hostile(r *ev.Run, srv *dohmem.Server) {
 		r.Eval("owner-label-with-dot", "hostile -> not used")
 		srv.Zone = z.answer
 	}
+	// a response that answers ANOTHER question than the one asked (its question section names other.example, its records are
+	// other.example's): nothing of it belongs to the name asked; and a record whose owner has the asked name as a label-wise
+	// PREFIX, followed by a label that contains a dot (o.example."x.y"): not the asked name either, and no reason to panic
+	{
+		srv.Reset()
+		srv.Zone = func(name string, t uint16) dohmem.Answer {
+			raw := ipX4
+			if t == 28 {
+				raw = ipX6
+			}
+			if t == 65 {
+				return dohmem.Answer{EchoQuestion: &dnsref.Question{Name: "other.example", Type: 65, Class: 1}, Records: []dnsref.RR{{Name: "other.example", Type: 65, Class: 1, TTL: 60, Fields: dnsref.SVCB(1, "", []dnsref.Param{dnsref.ParamECH([]byte{0xba, 0xd0})})}}}
+			}
+			return dohmem.Answer{EchoQuestion: &dnsref.Question{Name: "other.example", Type: t, Class: 1}, Records: []dnsref.RR{{Name: "other.example", Type: t, Class: 1, TTL: 60, Fields: []dnsref.Field{{Raw: raw}}}}}
+		}
+		res, _ := ech.NewResolver("https://doh.test/dns-query")
+		got, err := res.Resolve(context.Background(), "victim.example")
+		oc := "answer to another question -> not used"
+		if err == nil && (len(got.Address) > 0 || len(got.HTTPS) > 0) {
+			oc = "answer to another question -> USED"
+			r.Violation("poison-used:answer-to-another-question", fmt.Sprintf("Resolve(\"victim.example\") used the records of a response whose question section and records name other.example: %s", resultKey(got)), "echoed question differs")
+		}
+		r.Eval("answer-to-another-question", oc)
+		mkRaw := func(qtype uint16, rdata []byte) []byte {
+			m := []byte{0, 0, 0x81, 0x80, 0, 1, 0, 1, 0, 0, 0, 0, 1, 'o', 7, 'e', 'x', 'a', 'm', 'p', 'l', 'e', 0, byte(qtype >> 8), byte(qtype), 0, 1}
+			m = append(m, 1, 'o', 7, 'e', 'x', 'a', 'm', 'p', 'l', 'e', 3, 'x', '.', 'y', 0, byte(qtype>>8), byte(qtype), 0, 1, 0, 0, 0, 60, byte(len(rdata)>>8), byte(len(rdata)))
+			return append(m, rdata...)
+		}
+		srv.Reset()
+		srv.Zone = func(name string, t uint16) dohmem.Answer {
+			switch t {
+			case 1:
+				return dohmem.Answer{Raw: mkRaw(1, ipX4)}
+			case 28:
+				return dohmem.Answer{Raw: mkRaw(28, ipX6)}
+			}
+			return dohmem.Answer{Raw: mkRaw(65, []byte{0, 1, 0, 0, 1, 0, 3, 2, 'h', '2'})}
+		}
+		res, _ = ech.NewResolver("https://doh.test/dns-query")
+		panicked := any(nil)
+		func() {
+			defer func() { panicked = recover() }()
+			got, err = res.Resolve(context.Background(), "o.example")
+		}()
+		oc = "owner = asked name + a dotted label -> not used"
+		if panicked != nil {
+			oc = "panic"
+			r.Violation("panic:owner-with-dotted-label-after-the-asked-name", fmt.Sprintf("Resolve(\"o.example\") panicked on an answer owned by o.example.\"x.y\": %v", panicked), "owner extends the asked name by a dotted label")
+		} else if err == nil && (len(got.Address) > 0 || len(got.HTTPS) > 0) {
+			oc = "USED"
+			r.Violation("poison-used:owner-extends-asked-name", fmt.Sprintf("Resolve(\"o.example\") used records owned by o.example.\"x.y\": %s", resultKey(got)), "owner extends the asked name by a dotted label")
+		}
+		r.Eval("owner-extends-asked-name", oc)
+		srv.Zone = z.answer
+	}
 	// a URI names its host; what follows the authority (a path, a query of any length - Transport hands the whole request URL over)
 	// does not take part: Resolve(uri + long tail) = Resolve(uri) for tails of 1..70000 octets
 	{
